@@ -28,8 +28,7 @@ def names_in(e):
     return {x.id for x in ast.walk(e) if isinstance(x, ast.Name)}
 
 
-def rule_R2(chk, repo):
-    rid = 'C05.R2'
+def rule_R2(chk, repo, rid='C05.R2'):
     chk.rule(rid, 'no chain coefficient is dropped on the way to an edge: every coefficient-tainted '
                   'loop-carried variable of the site sweep flows, after the sweep, into the coefficient slot '
                   'of an edge (OpGraphEdge opics / store to .opics); a use inside assert/compare only is '
@@ -118,9 +117,8 @@ def rule_R2(chk, repo):
     chk.floor(rid, n_ob + 1, 4)
 
 
-def rule_R3(chk, repo):
+def rule_R3(chk, repo, rid='C05.R3'):
     """from_opgraph: one ordering of the next layer serves labels, nid_map, columns and next rows."""
-    rid = 'C05.R3'
     chk.rule(rid, 'MPO.from_opgraph: the bond labels (qD.append), the node map (nid_map[nid] = (l, i)), the '
                   'column index (nids1.index) and the next layer rows (nids0 = nids1) are all reached by the '
                   'same definition of the layer ordering; the layer counter advances once per appended layer; '
